@@ -8,16 +8,19 @@
     compared with the sequential results.
 The interleaving semantics is the Lean `Rec` model (race counterexample for the unsynchronised protocol, mutual exclusion
 for the locked one)."""
-import sys, os, json, random, collections, threading
+import time, sys, os, json, random, collections, threading
 HERE = os.path.dirname(os.path.abspath(__file__)); sys.path.insert(0, HERE)
 from common import build_module, case_hash
 
 
 class Sched:
     """threads run one at a time; at each yield point the running thread hands control to the thread the schedule names"""
+    total_rescues = 0
     def __init__(self, schedule, tl):
         self.schedule = list(schedule); self.pos = 0; self.tl = tl
         self.cv = threading.Condition(); self.current = None; self.alive = set(); self.steps = 0
+        self.progress = time.time(); self.rescues = 0
+        self.free = Sched.total_rescues >= 3       # (three rescued schedules: every later one runs freely from the start) after a rescue the threads run freely (real pre-emption): the schedule cannot be enforced around a lock it does not know
     def start(self, fns):
         ths = []
         for name, fn in fns.items():
@@ -32,24 +35,30 @@ class Sched:
             if n in self.alive and n != avoid: return n
         rest = sorted(x for x in self.alive if x != avoid)
         return rest[0] if rest else (avoid if avoid in self.alive else None)
+    def _wait_turn(self, name):
+        # (called with the condition held) wait for the turn; when the running thread makes no progress for a second - it is blocked on a lock of the
+        # package that the scheduler does not know about, held by a parked thread - a parked thread goes on
+        while self.current != name and not self.free:
+            if not self.cv.wait(0.25) and self.current != name and time.time() - self.progress > 0.5:
+                self.rescues += 1; Sched.total_rescues += 1; self.free = True; self.cv.notify_all(); break
     def _run(self, name, fn):
         self.tl.name = name
-        with self.cv:
-            while self.current != name: self.cv.wait(30)
+        with self.cv: self._wait_turn(name)
         try: fn()
         finally:
             with self.cv:
-                self.alive.discard(name); self.current = self._next(); self.cv.notify_all()
+                self.alive.discard(name); self.progress = time.time(); self.current = self._next(); self.cv.notify_all()
     def point(self, blocked=False, prefer=None):
         name = getattr(self.tl, "name", None)
-        if name is None: return
+        if name is None or self.free: return
         with self.cv:
             self.steps += 1
             # a thread blocked on a lock hands control to the holder of the lock (otherwise two blocked threads could pass
             # the control to each other for ever)
+            self.progress = time.time()
             self.current = prefer if (prefer in self.alive) else self._next(avoid=name if blocked else None)
             self.cv.notify_all()
-            while self.current != name: self.cv.wait(30)
+            self._wait_turn(name)
 
 
 class SchedLock:
@@ -89,7 +98,7 @@ def run(prop, seed, budget, ctx):
     from apischema.conversions.converters import default_deserialization
     from apischema.recursion import is_recursive, DeserializationRecursiveChecker
     from apischema.json_schema import deserialization_schema
-    rnd = random.Random(seed)
+    rnd = random.Random(seed); Sched.total_rescues = 0
     tl = threading.local(); state = {"sched": None}
     failures, hist, distinct, samples, evaluations = [], collections.Counter(), set(), [], 0
     stuck = False           # a schedule left threads parked (a deadlock): later modes are skipped
@@ -161,6 +170,9 @@ def run(prop, seed, budget, ctx):
                                      "why": ["concurrent-first-use-differs-from-sequential" if finished else "threads-did-not-finish"]})
                 elif len(samples) < 3:
                     samples.append({"calls": plan, "schedule": "".join(schedule[:24]) + "...", "results": {k: repr(v) for k, v in res.items()}, "yield_points": sched.steps})
+                if sched.rescues: hist["schedules-with-a-thread-blocked-on-an-unknown-lock"] += 1
+                if not finished: stuck = True; break
+            if stuck: break
     finally:
         recursion.recursion_cache = orig_rc
         if orig_lock is not None: recursion._lock = orig_lock
@@ -178,6 +190,7 @@ def run(prop, seed, budget, ctx):
                      f"    child: Optional['LN{i}'] = field(default=None, metadata=schema(min_props=1))", ""]
     lmod = build_module(lazy_src, f"reclazy{seed}"); lns = dict(vars(lmod))
     for i in range(nl):
+        if stuck: break
         LN = lns[f"LN{i}"]
         datum = {"value": 1, "child": {"value": 2, "child": {"value": 3}}}
         try: deserialize(LN, {"value": 0}, aliaser=yal)                      # compiles and caches the top-level method only
